@@ -631,7 +631,7 @@ func main() {
 		}
 		r.Floor(r.Counter("rejected-by:"+modeEngineRO+":ErrReadOnly") >= int64(100*nparams), "engine.readOnlyCheck (ErrReadOnly) hardly reached")
 		r.Floor(r.Counter("rejected-by:"+modeLocked+":ErrDatabaseWriteLocked") >= int64(100*nparams), "engine.readOnlyCheck (ErrDatabaseWriteLocked) hardly reached")
-		r.Floor(r.Counter("rejected-by:"+modeTxnRO+":ErrReadOnlyTransaction") >= 1, "validateReadOnlyTransaction never rejected anything")
+		r.Floor(r.Counter("rejected-by:"+modeTxnRO+":ErrReadOnlyTransaction") >= int64(50*nparams), "validateReadOnlyTransaction hardly rejected anything")
 		r.Floor(r.Counter("rejected-by:"+modeDbRO+":ErrReadOnlyDatabase") >= int64(60*nparams), "validateReadOnlyDatabase hardly reached")
 		r.Floor(r.Counter("bound-path-rejected-by:"+modeEngineRO+":ErrReadOnly") >= 100, "readOnlyCheck in PrepQueryPlanForExecution (ErrReadOnly) hardly reached")
 		r.Floor(r.Counter("bound-path-rejected-by:"+modeLocked+":ErrDatabaseWriteLocked") >= 100, "readOnlyCheck in PrepQueryPlanForExecution (ErrDatabaseWriteLocked) hardly reached")
